@@ -219,6 +219,7 @@ func (l *Gpos1_2) encode() []byte {
 	}
 	coverageOffset := total
 	total += l.Cov.EncodeLen()
+	checkOffset16(coverageOffset)
 
 	buf := make([]byte, 0, total)
 	buf = append(buf,
@@ -408,6 +409,7 @@ func (l Gpos2_1) encode() []byte {
 	}
 	pairSetOffsets := make([]uint16, pairSetCount)
 	for i, adj := range adjust {
+		checkOffset16(total)
 		pairSetOffsets[i] = uint16(total)
 		total += 2 + 2*len(adj)
 		for _, v := range adj {
@@ -609,6 +611,7 @@ func (l *Gpos2_2) encode() []byte {
 	total += l.Class1.AppendLen()
 	classDef2Offset := total
 	total += l.Class2.AppendLen()
+	checkOffset16(classDef2Offset)
 
 	res := make([]byte, 0, total)
 	res = append(res,
@@ -765,6 +768,7 @@ func (l *Gpos3_1) encode() []byte {
 	}
 	coverageOffset := total
 	total += l.Cov.EncodeLen()
+	checkOffset16(coverageOffset)
 
 	res := make([]byte, 0, total)
 
